@@ -556,14 +556,22 @@ def _process_internal_events_without_default_matchers(
         if flow_id in state.flow_configs and flow_id != "main":
             # Do not start a flow on behalf of a flow instance that has already ended, i.e. when
             # the StartFlow event was still queued while its sender finished or failed.
-            # (The restart of an activated flow is sent by the ended instance of the same flow.)
+            # (The restart of an activated flow is sent by the ended instance of the same flow.
+            # It is dropped as well if the flow got deactivated while the restart was queued,
+            # i.e. when its last activator ended while processing the same event.)
             source_flow_state = state.flow_states.get(
                 event.arguments.get("source_flow_instance_uid", None), None
             )
             if (
                 source_flow_state is not None
                 and _is_done_flow(source_flow_state)
-                and source_flow_state.flow_id != flow_id
+                and (
+                    source_flow_state.flow_id != flow_id
+                    or (
+                        event.arguments.get("activated", None)
+                        and source_flow_state.activated == 0
+                    )
+                )
             ):
                 handled_event_loops.add("all_loops")
                 return handled_event_loops
